@@ -17,9 +17,11 @@ override = None
 for i, a in enumerate(sys.argv):
     if a == "--tier": tier = sys.argv[i + 1]
     if a == "--checks": override = sys.argv[i + 1].split(",")
-args = [a for a in args if a not in (tier, SCRATCH) and (override is None or a != ",".join(override))]
+args = [a for a in args if a not in (tier, SCRATCH) and (override is None or a != ",".join(override)) and not a.endswith(".json")]
 names = args or sorted(d for d in os.listdir(os.path.join(ROOT, "seeded")) if os.path.isdir(os.path.join(ROOT, "seeded", d)))
 resf = os.path.join(ROOT, "seeded", "results.json")
+for i, a in enumerate(sys.argv):
+    if a == "--results": resf = sys.argv[i + 1]   # (a second concurrent run writes its own file; merge afterwards)
 results = json.load(open(resf)) if os.path.exists(resf) else {}
 if SCRATCH:
     head = subprocess.run(["git", "-C", "/repo", "rev-parse", "HEAD"], capture_output=True, text=True).stdout.strip()
